@@ -574,7 +574,7 @@ Proof.
   destruct (term_exits pol s0 Completed Hr2 Ht Hs) as [T1 T2]. rewrite <- E in T1, T2.
   split; [exact Hr2|]. split; [exact T1|]. split; [rewrite T1; exact HP|].
   rewrite T2, Hr3. destruct insts as [|i insts'].
-  - apply Permutation_nil in HP. rewrite HP. reflexivity.
+  - simpl in HP. apply Permutation_sym, Permutation_nil in HP. rewrite HP. reflexivity.
   - destruct (lout s0); [apply Permutation_nil in HP; discriminate|reflexivity].
 Qed.
 
